@@ -198,6 +198,7 @@ type exec struct {
 	// oldAgain: it has been closed a second time since (a deferred Close, or the library's own late clean-up)
 	old      net.PacketConn
 	oldAgain bool
+	oldNum   uint16 // a channel number the first socket had confirmed (0: none)
 	// allocLT: the LIFETIME the scripted server grants in its Allocate success response (0 = the usual 3600 s)
 	allocLT    uint32
 	allocLTSet bool
@@ -1008,6 +1009,9 @@ func (x *exec) apply(ev string) { //nolint:gocognit,cyclop
 
 			return
 		}
+		if n, _, ok := x.lowestConfirmed(); ok {
+			x.oldNum = n // a channel the FIRST socket had bound: means nothing to the second one until it binds it itself
+		}
 		x.m = &model{granted: map[string]bool{}, bind: map[string]*mbind{}, owner: map[uint16]string{}, nonce: "nonce-0", consec438: map[string]int{}}
 		x.writes, x.writers, x.reader, x.out = map[string]*wcall{}, nil, nil, nil
 	case "close-old":
@@ -1074,6 +1078,19 @@ func (x *exec) apply(ev string) { //nolint:gocognit,cyclop
 				x.m.queue = append(x.m.queue, qent{payload, p.peer})
 			}
 			x.inbound("chandata-requested-channel", wire.ChannelData(p.n, []byte(payload), true))
+		case "chan:stale":
+			// ChannelData on a number only the closed first socket had bound: the second socket has asked for nothing on it,
+			// the payload belongs to nobody and is discarded (the model queue is unchanged)
+			x.inbound("chandata-channel-of-the-closed-socket", wire.ChannelData(x.oldNum, []byte(payload), true))
+			if x.reader == nil && len(x.m.queue) == 0 && !x.m.closed() {
+				// nothing is queued for the application: a read that gives up at once must find nothing
+				_ = x.conn.SetReadDeadline(time.Now())
+				buf := make([]byte, 2048)
+				if n, from, err := x.conn.ReadFrom(buf); err == nil {
+					x.fail("read:payload-on-a-channel-this-socket-never-bound", "ReadFrom returned %q from %v: ChannelData on %#x, which only the closed first socket had bound", buf[:n], from, x.oldNum)
+				}
+				_ = x.conn.SetReadDeadline(x.m.deadline)
+			}
 		case "chan:unbound":
 			// not delivered: the model queue is unchanged
 			x.inbound("chandata-unbound-channel", wire.ChannelData(unboundChan, []byte(payload), true))
